@@ -21,9 +21,11 @@ E = {
          "specification (exact on-edge test, crossing number, shoelace orientation) wherever the tolerance test answers the exact "
          "question; independent characterisations of the winding number (triangle, reversal, start vertex, inserted vertex). Curved "
          "boundaries and the tolerance zone are partial (known findings F12, F19). Correspondence + oracle on every run.", "7 C02"),
- "C03": ("Proved: singleton rows, composition rules (Connected = all, Disjoint = some/all) as the model computes them. Subset soundness "
-         "of the simple-in-simple test is not proved (partial; two known findings live there). Correspondence on all ordered pairs of a "
-         "pool of shapes + exact subset oracle by slab sampling on every run.", "7 C03"),
+ "C03": ("Proved: singleton rows, composition rules (Connected = all, Disjoint = some/all); the curve-in-shape test at the heart of "
+         "`B in A` is SOUND and COMPLETE for polygons -- in general position `J in A` holds iff every point of J is inside or on A "
+         "(C03_curve_in_shape_iff), lifted to Connected/Disjoint containers. That the area/orientation case analysis of simple-in-simple "
+         "on top of it decides subset of regions is not proved (partial; three defects found there were repaired: F10, F11, F22). "
+         "Correspondence on all ordered pairs of a pool of shapes, touching boundaries and curved contents + exact subset oracle on every run.", "7 C03"),
  "C04": ("Theorem C04_polygon: for all polygonal shapes of all kinds and a+b <= 14 the quadrature value equals the formal trapezoid "
          "integrals (moment_spec); Newton-Cotes exactness proved up to 19 nodes; area = shoelace; reversal negates. Curved: oracle "
          "(exact area, quadrature accuracy for moments). Correspondence + independent formula (sweep to the other axis) on every run.", "7 C04"),
@@ -31,11 +33,15 @@ E = {
          "themselves rest on the recombination premise of C01 (partial) and are checked exactly on the implementation's results for "
          "every generated pair and nested expression (oracle = the identities, all moments of order <= 2).", "7 C05"),
  "C06": ("Proved for all inputs: every constructed curve is a closed chain, kind tables (~Simple Simple, ~Connected Disjoint, "
-         "Empty/Whole rows and columns), a Connected has >= 2 curves and a Disjoint >= 2 components, regrouping keeps the curves. "
-         "Singleton laws and disjointness of components are checked by the oracle on every generated shape (partial).", "7 C06"),
- "C07": ("Model of all four __eq__; proved: different kinds compare unequal, == never runs out of fuel; representation independence, "
-         "symmetry and transitivity are checked on pools of variants by the oracle (exact region equality) -- partial; known findings "
-         "F8, F9.", "7 C07"),
+         "Empty/Whole rows and columns), a Connected has >= 2 curves and a Disjoint >= 2 components, regrouping keeps the curves; no "
+         "zero-length piece is created by any split, in any re-split operand or complement, nor in | / & results whose pieces exceed the "
+         "1e-9 point tolerance (and a machine-checked, replayed counterexample below it). Singleton laws, disjointness of components and "
+         "freedom from self-crossings are checked by the oracle on every generated shape (partial).", "7 C06"),
+ "C07": ("Model of all four __eq__; proved: different kinds compare unequal, == never runs out of fuel and returns a bool on well-formed "
+         "polygons, reflexive and start-vertex independent on cleaned polygons, SOUND (a == b implies equal winding numbers, area, boundary "
+         "and region when the 1e-9 tolerance cannot confuse control points), symmetric for long pairwise different edges and refuted on a "
+         "repeated edge. Completeness, transitivity and composite shapes are checked on pools of variants by the oracle (exact region "
+         "equality) -- partial; known finding F9.", "7 C07"),
  "C08": ("Heap model MH (identity, sharing, in-place mutation): proved frame theorem -- mutating one object leaves every separated "
          "object's geometry unchanged -- and freshness of results, for every history (induction over the operation list). Tied to the "
          "code by comparing control points AND the aliasing partition (id()) after every step of generated histories.", "7 C08"),
@@ -43,8 +49,8 @@ E = {
          "translation and positive scaling, area scales by det, exact invertibility of move/scale/rational rotations. Rotations by float "
          "angles are idealised. Correspondence + oracle on sequences of transformations.", "7 C09"),
  "C10": ("Heap model with the length cache: proved cache coherence is an invariant of every operation (after repair F2), so every query "
-         "equals the query on a fresh copy; determinism of the model. Code side: live vs deep copy vs second process with another "
-         "PYTHONHASHSEED.", "7 C10"),
+         "equals the query on a fresh copy; determinism of the model. Code side: live object vs deep copy vs an object rebuilt from the "
+         "current coordinates vs a second process with another PYTHONHASHSEED; evaluation orders across objects in cold processes.", "7 C10"),
  "C11": ("Step-indexed heap model: proved that every prefix of a non-mutating operation leaves the operands' geometry intact (after "
          "repair F4) and that transformations validate before mutating (after repair F5). Code side: exception injection at every k-th "
          "internal call.", "7 C11"),
@@ -58,7 +64,8 @@ E = {
          "non-parallel segments is reported, None rows only for equal segments, swap symmetry, flag semantics, never raises. Curved "
          "crossings and parity: oracle only (partial).", "7 C14"),
  "C15": ("Proved for straight segments: pieces retrace, junctions lie at the split parameters, no zero-length piece, area and winding "
-         "number unchanged, closedness preserved, clean idempotent. Curved pieces (degree reduction): oracle only. Known finding F15.", "7 C15"),
+         "number unchanged, closedness preserved, split is TOTAL on valid requests (repeated / nearly equal parameters merged), clean "
+         "idempotent and complete. Curved pieces (degree reduction): oracle only. F15/F15c/F25 repaired; known finding F15b.", "7 C15"),
  "C16": ("Proved over Q: square/triangle/polygon/regular_polygon(4) vertex lists, positive area, closed-form areas; circle arcs lie in "
          "the band r^2 <= |B(t)-c|^2 <= r^2(1+h^4/(4(1+h^2))) (polynomial identity). Validation matrix and float trigonometry by "
          "correspondence.", "7 C16"),
